@@ -83,6 +83,9 @@ func (p *Pegnet) SelectTransactionBatchesInHoldingAtHeight(height uint64) ([]*fa
 		}
 		txBatches = append(txBatches, txBatch)
 	}
+	if err := rows.Err(); err != nil {
+		return nil, err
+	}
 	return txBatches, nil
 }
 
